@@ -567,10 +567,14 @@ Section WithLoader.
   Definition cast_fail {A} (r : res unit) : res A :=
     match r with Ok _ => Err "internal" | Err t => Err t | Panic w => Panic w | Diverge => Diverge end.
 
+  (* prefix every reported path with the step taken to reach the value *)
+  Definition tag (e : pelem) (os : list occ) : list occ :=
+    map (fun o => (e :: fst o, snd o)) os.
+
   (* [nest] = true: [v] is the value of an @nest member; its members belong to the
      node whose context is [c] (no new node context).  Result: the undefined keys
-     REACHED by expansion, in document order. *)
-  Fixpoint walk (c : ctx) (ap : string) (nest sw : bool) (pre : path) (v : json) {struct v}
+     REACHED by expansion, in document order, as paths relative to [v]. *)
+  Fixpoint walk (c : ctx) (ap : string) (nest sw : bool) (v : json) {struct v}
     : res (list occ) :=
     match v with
     | JArr l =>
@@ -578,9 +582,9 @@ Section WithLoader.
            match l with
            | [] => Ok []
            | x :: t =>
-               a <- walk c ap nest sw (pre ++ [PI i]) x ;;
+               a <- walk c ap nest sw x ;;
                b <- items t (N.succ i) ;;
-               Ok (a ++ b)
+               Ok (tag (PI i) a ++ b)
            end) l 0%N
     | JObj m =>
         cn <- (if nest then Ok c else node_ctx c ap m) ;;
@@ -590,9 +594,9 @@ Section WithLoader.
            | (k, x) :: t =>
                a <- match member_action cn ap k x with
                     | ASkip => Ok []
-                    | AUndef => Ok [(pre ++ [PK k], sw)]
-                    | AWalk c' ap' s' => walk c' ap' false (sw || s') (pre ++ [PK k]) x
-                    | ANest => walk cn ap true sw (pre ++ [PK k]) x
+                    | AUndef => Ok [([PK k], sw)]
+                    | AWalk c' ap' s' => r <- walk c' ap' false (sw || s') x ;; Ok (tag (PK k) r)
+                    | ANest => r <- walk cn ap true sw x ;; Ok (tag (PK k) r)
                     | AFail r => cast_fail r
                     end ;;
                b <- members t ;;
@@ -625,7 +629,7 @@ Section WithLoader.
     end.
 
   (* the top level call: processor.go:151-179 — empty active context, no active property *)
-  Definition undefined_occ (d : json) : res (list occ) := walk empty_ctx "" false false [] d.
+  Definition undefined_occ (d : json) : res (list occ) := walk empty_ctx "" false false d.
   Definition strip_undefined (d : json) : json := strip empty_ctx "" false d.
   Definition unswallowed (o : occ) : bool := negb (snd o).
   (* does expansion with SafeMode = true fail with "invalid property"? *)
